@@ -124,7 +124,7 @@ Definition ex_id : bytes := [120%N].                      (* "x" *)
 Definition ex_rid : bytes := [116%N; 46%N; 120%N].        (* "t.x" *)
 Definition ex_tr : transformer nat :=
   Tr (fun rid => skipn 2 rid) (fun id _ => [116%N; 46%N] ++ id)
-     (fun _ v => match v with RC (0 :: _) => None | RC c => Some (RC c) | RM _ => None end).
+     (fun _ v => match v with RC (0 :: _) => None | RC c => Some (RC c) | _ => None end).
 Definition ex_cfg : config nat := Cfg TCollection (Some ex_tr) (Some (RC [7])) (fun _ => true).
 Example coherent_nonvacuous :
   cfg_ok ex_cfg ex_id ex_rid /\
@@ -138,5 +138,5 @@ Proof.
   split; [|vm_compute; repeat split].
   unfold cfg_ok, ex_cfg, ex_tr. cbn. repeat split; try discriminate.
   - intros d H. injection H as <-. exact I.
-  - intros v v' H. destruct v as [m|[|[|n] c]]; try discriminate; injection H as <-; exact I.
+  - intros v v' H. destruct v as [m|[|[|n] c]|]; try discriminate; injection H as <-; exact I.
 Qed.
